@@ -285,7 +285,7 @@ impl Check for C11 {
     }
     fn generate(&self, g: &GenParams, emit: &mut dyn FnMut(Case)) {
         let mut r = g.rng(11);
-        let n = g.count(50_000, 2_000_000);
+        let n = g.count(150_000, 8_000_000);
         for k in 0..n {
             let mut o = DocOpts::random(&mut r);
             o.dup_keys = false;
